@@ -26,6 +26,7 @@ import (
 	"github.com/google/martian/v3/api"
 	mlog "github.com/google/martian/v3/log"
 	"github.com/google/martian/v3/messageview"
+	"github.com/google/martian/v3/proxyutil"
 	"pgregory.net/rapid"
 
 	"verifharness/internal/kit"
@@ -60,10 +61,15 @@ type Case struct {
 	// marked, in this order: skip-logging | api-forwarder (the real
 	// api.Forwarder: marks API request + skip-logging) | skip-round-trip |
 	// api-request. Empty = skip-logging alone.
-	Marks   []string `json:"marks,omitempty"`
-	Unknown bool     `json:"unknown,omitempty"` // request only: an upstream modifier made the length unknown (-1)
-	Proxy   bool     `json:"proxy,omitempty"`   // forward with WriteProxy instead of Write
-	Order   []int    `json:"order,omitempty"`   // stack: permutation of 0=har 1=marbl 2=text
+	Marks []string `json:"marks,omitempty"`
+	// Built: the message is not read off the wire but built by a program
+	// (http.NewRequest with a body it cannot size / proxyutil.NewResponse):
+	// "cl0" leaves ContentLength at 0, "cl-1" sets it to -1. Applies to
+	// Content-Length-framed messages with a body of at least one byte.
+	Built   string `json:"built,omitempty"`
+	Unknown bool   `json:"unknown,omitempty"` // request only: an upstream modifier made the length unknown (-1)
+	Proxy   bool   `json:"proxy,omitempty"`   // forward with WriteProxy instead of Write
+	Order   []int  `json:"order,omitempty"`   // stack: permutation of 0=har 1=marbl 2=text
 }
 
 // ---------------------------------------------------------------- plumbing
@@ -75,7 +81,69 @@ type twin struct {
 	ctx    *martian.Context
 }
 
-func parse(m *msggen.Message, unknown bool) (*twin, error) {
+// opaque hides the concrete type of a reader: net/http (and whoever builds
+// the message) cannot size the body.
+type opaque struct{ io.Reader }
+
+// builtApplies: a message is built by a program (instead of parsed) only if it
+// is not chunked and has a body of at least one byte.
+func builtApplies(built string, m *msggen.Message) bool {
+	return built != "" && m.Framing == "cl" && m.BodyOnWire && len(m.Entity) > 0 && !(m.Spec.Response == false && m.Spec.Proto10)
+}
+
+// build constructs the message the way a program does: http.NewRequest with a
+// body it cannot size, proxyutil.NewResponse(code, body, req) as the proxy and
+// its modifiers do; ContentLength is left at 0 (built == "cl0": net/http reads
+// that, with a non-nil Body, as unknown) or set to -1 (built == "cl-1").
+func build(m *msggen.Message, built string) (*twin, error) {
+	t := &twin{}
+	add := func(h http.Header) {
+		for _, x := range m.Headers {
+			switch textproto.CanonicalMIMEHeaderKey(x.Name) {
+			case "Content-Length", "Host":
+			default:
+				h.Add(x.Name, x.Value)
+			}
+		}
+	}
+	if !m.Spec.Response {
+		req, err := http.NewRequest(m.Method, m.URL, opaque{bytes.NewReader(m.Entity)})
+		if err != nil {
+			return nil, err
+		}
+		add(req.Header)
+		req.RemoteAddr = "127.0.0.1:54321"
+		if built == "cl-1" {
+			req.ContentLength = -1
+		}
+		t.req = req
+	} else {
+		req, err := http.NewRequest(m.Spec.ReqMethod, "http://example.com/answered", nil)
+		if err != nil {
+			return nil, err
+		}
+		if m.Spec.Proto10 {
+			req.Proto, req.ProtoMinor = "HTTP/1.0", 0
+		}
+		res := proxyutil.NewResponse(m.Status, opaque{bytes.NewReader(m.Entity)}, req)
+		add(res.Header)
+		if built == "cl-1" {
+			res.ContentLength = -1
+		}
+		t.req, t.res = req, res
+	}
+	ctx, remove, err := martian.TestContext(t.req, nil, nil)
+	if err != nil {
+		return nil, err
+	}
+	t.ctx, t.remove = ctx, remove
+	return t, nil
+}
+
+func parse(m *msggen.Message, unknown bool, built string) (*twin, error) {
+	if builtApplies(built, m) {
+		return build(m, built)
+	}
 	t := &twin{}
 	br := bufio.NewReader(bytes.NewReader(m.Wire))
 	if !m.Spec.Response {
@@ -174,6 +242,10 @@ func forwardShape(c Case, m *msggen.Message) string {
 	switch {
 	case !m.BodyOnWire || (len(m.Entity) == 0 && m.Framing != "chunked" && m.Framing != "close"):
 		return side + "-without-body"
+	case builtApplies(c.Built, m):
+		return side + "-built-without-length"
+	case m.Spec.Body.Kind == "badform":
+		return side + "-unparseable-form"
 	case c.Unknown:
 		return side + "-unknown-length"
 	case m.TrailerPresent:
@@ -360,12 +432,12 @@ func withoutKeys(h http.Header, skip ...string) http.Header {
 
 func run(c Case) (v kit.Verdict) {
 	m := msggen.Build(c.Msg)
-	ctl, err := parse(m, c.Unknown)
+	ctl, err := parse(m, c.Unknown, c.Built)
 	if err != nil {
 		return kit.Failf("C15/harness/generated-message-unparseable", "net/http cannot parse the generated message: %v\n%s", err, head(m.Wire))
 	}
 	defer ctl.remove()
-	sub, err := parse(m, c.Unknown)
+	sub, err := parse(m, c.Unknown, c.Built)
 	if err != nil {
 		return kit.Failf("C15/harness/generated-message-unparseable", "second parse: %v", err)
 	}
@@ -394,7 +466,12 @@ func run(c Case) (v kit.Verdict) {
 		textBase = ls.count("text")
 	}
 	for _, name := range names {
+		before := ls.count(name)
 		note(ls.applyMsg(name, sub))
+		if name == "text" && ls.count(name) == before+1 {
+			// the record just emitted must be this message
+			v = append(v, verifyTextRecord(c, m, sub, ls.lastRecord())...)
+		}
 	}
 	if c.Logger == "snapshot" {
 		v = append(v, snapshot(c, m, sub)...)
@@ -600,7 +677,8 @@ func takeSnapshot(c Case, m *msggen.Message, sub *twin) (mv *messageview.Message
 		return mv, captured, false, kit.Failf("C15/snapshot/"+snapshotShape(m)+"/snapshot-error", "snapshot of a well-formed message failed: %v", err)
 	}
 	// no HTTP/1.x serialisation of a request of unknown length exists
-	return mv, captured, !c.Unknown, nil
+	// ... nor of a message whose length field says nothing about its body
+	return mv, captured, !c.Unknown && !builtApplies(c.Built, m), nil
 }
 
 // verifySnapshot re-parses Reader() and compares it with the description.
@@ -614,6 +692,50 @@ func verifySnapshot(c Case, m *msggen.Message, sub *twin, mv *messageview.Messag
 	if err != nil {
 		return kit.Failf("C15/snapshot/"+shape+"/reader-error", "reading Reader(): %v", err)
 	}
+	tb, _ := io.ReadAll(mv.TrailerReader())
+	if tb == nil {
+		tb = []byte{}
+	}
+	return verifyRaw("C15/snapshot/", m, sub, raw, tb, captured)
+}
+
+// textSnapshot cuts the message out of a record of the text logger:
+// "\n" 80x"-" "\n" title "\n" 80x"-" "\n" <message> "\n" 80x"-" "\n".
+func textSnapshot(record string) ([]byte, bool) {
+	rule := strings.Repeat("-", 80) + "\n"
+	i := strings.Index(record, rule)
+	if i < 0 {
+		return nil, false
+	}
+	j := strings.Index(record[i+len(rule):], rule)
+	if j < 0 {
+		return nil, false
+	}
+	rest := record[i+len(rule)+j+len(rule):]
+	if !strings.HasSuffix(rest, "\n"+rule) {
+		return nil, false
+	}
+	return []byte(strings.TrimSuffix(rest, "\n"+rule)), true
+}
+
+// verifyTextRecord: without the decode option the text logger emits the
+// snapshot of the message; it must be that message. Messages with trailers are
+// left to the snapshot clause (open finding: no blank line after trailers).
+func verifyTextRecord(c Case, m *msggen.Message, sub *twin, record string) kit.Verdict {
+	if c.Decode || m.TrailerPresent || c.Unknown || builtApplies(c.Built, m) {
+		return nil
+	}
+	raw, ok := textSnapshot(record)
+	if !ok {
+		return kit.Failf("C15/text-log/"+snapshotShape(m)+"/record-malformed", "the text record does not have the documented layout: %.200q", record)
+	}
+	return verifyRaw("C15/text-log/", m, sub, raw, nil, !c.HeadersOnly)
+}
+
+// verifyRaw re-parses an emitted snapshot and compares it with the
+// description. trailerSection is the raw trailer block when known.
+func verifyRaw(clause string, m *msggen.Message, sub *twin, raw, trailerSection []byte, captured bool) (v kit.Verdict) {
+	shape := snapshotShape(m)
 	br := bufio.NewReader(bytes.NewReader(raw))
 	var (
 		hdr      http.Header
@@ -629,7 +751,7 @@ func verifySnapshot(c Case, m *msggen.Message, sub *twin, mv *messageview.Messag
 	if sub.res == nil {
 		req, err := http.ReadRequest(br)
 		if err != nil {
-			return kit.Failf("C15/snapshot/"+shape+"/not-reparseable", "the snapshot is not a parseable request: %v\n%s", err, head(raw))
+			return kit.Failf(clause+shape+"/not-reparseable", "the snapshot is not a parseable request: %v\n%s", err, head(raw))
 		}
 		hdr, trailer, body, cl, te = req.Header, &req.Trailer, req.Body, req.ContentLength, req.TransferEncoding
 		startGot = fmt.Sprintf("%s %s %s host=%s", req.Method, req.RequestURI, req.Proto, req.Host)
@@ -639,7 +761,7 @@ func verifySnapshot(c Case, m *msggen.Message, sub *twin, mv *messageview.Messag
 	} else {
 		res, err := http.ReadResponse(br, sub.req)
 		if err != nil {
-			return kit.Failf("C15/snapshot/"+shape+"/not-reparseable", "the snapshot is not a parseable response: %v\n%s", err, head(raw))
+			return kit.Failf(clause+shape+"/not-reparseable", "the snapshot is not a parseable response: %v\n%s", err, head(raw))
 		}
 		hdr, trailer, body, cl, te = res.Header, &res.Trailer, res.Body, res.ContentLength, res.TransferEncoding
 		startGot = fmt.Sprintf("%s %d %s", res.Proto, res.StatusCode, res.Status)
@@ -658,26 +780,26 @@ func verifySnapshot(c Case, m *msggen.Message, sub *twin, mv *messageview.Messag
 			}
 		}
 		if !hostLine {
-			v.Addf("C15/snapshot/"+shape+"/host-header-missing", "the snapshot has no 'Host: %s' line: %s", m.Host, head(raw))
+			v.Addf(clause+shape+"/host-header-missing", "the snapshot has no 'Host: %s' line: %s", m.Host, head(raw))
 		}
 	}
 	if startGot != startExp {
-		v.Addf("C15/snapshot/"+shape+"/start-line-differs", "snapshot start line %q, message %q", startGot, startExp)
+		v.Addf(clause+shape+"/start-line-differs", "snapshot start line %q, message %q", startGot, startExp)
 	}
 	gotH := multiset(withoutKeys(hdr, "Content-Length"))
 	wantH := descHeaders(m.Headers, "Content-Length", "Transfer-Encoding", "Trailer", "Host")
 	if strings.Join(gotH, "\n") != strings.Join(wantH, "\n") {
-		v.Addf("C15/snapshot/"+shape+"/headers-differ", "snapshot headers %q, message headers %q", gotH, wantH)
+		v.Addf(clause+shape+"/headers-differ", "snapshot headers %q, message headers %q", gotH, wantH)
 	}
 	if cl != wantCL || strings.Join(te, ",") != strings.Join(wantTE, ",") {
-		v.Addf("C15/snapshot/"+shape+"/framing-differs", "snapshot re-parses with length %d transfer-encoding %v, the message has %d %v", cl, te, wantCL, wantTE)
+		v.Addf(clause+shape+"/framing-differs", "snapshot re-parses with length %d transfer-encoding %v, the message has %d %v", cl, te, wantCL, wantTE)
 	}
 	if !captured {
 		return v
 	}
 	// the trailer block itself, whether or not the whole snapshot re-parses
 	// (announced or not: a message read to EOF knows its trailers)
-	if tb, err := io.ReadAll(mv.TrailerReader()); err == nil {
+	if tb := trailerSection; tb != nil {
 		var got []string
 		for _, l := range strings.Split(string(tb), "\r\n") {
 			if l != "" {
@@ -686,19 +808,19 @@ func verifySnapshot(c Case, m *msggen.Message, sub *twin, mv *messageview.Messag
 		}
 		sort.Strings(got)
 		if want := descHeaders(m.Trailers); strings.Join(got, "\n") != strings.Join(want, "\n") {
-			v.Addf("C15/snapshot/"+shape+"/trailer-section-differs", "the snapshot's trailer section holds %q, the message carries %q", got, want)
+			v.Addf(clause+shape+"/trailer-section-differs", "the snapshot's trailer section holds %q, the message carries %q", got, want)
 		}
 	}
 	data, err := io.ReadAll(body)
 	if err != nil {
-		v.Addf("C15/snapshot/"+shape+"/not-reparseable", "reading the body of the re-parsed snapshot fails: %v (tail of the snapshot: %q)", err, raw[max(0, len(raw)-60):])
+		v.Addf(clause+shape+"/not-reparseable", "reading the body of the re-parsed snapshot fails: %v (tail of the snapshot: %q)", err, raw[max(0, len(raw)-60):])
 		return v
 	}
 	if !bytes.Equal(data, m.Entity) {
-		v.Addf("C15/snapshot/"+shape+"/body-differs", "snapshot body: %s", kit.Diff(m.Entity, data))
+		v.Addf(clause+shape+"/body-differs", "snapshot body: %s", kit.Diff(m.Entity, data))
 	}
 	if got, want := multiset(*trailer), descHeaders(m.Trailers); strings.Join(got, "\n") != strings.Join(want, "\n") {
-		v.Addf("C15/snapshot/"+shape+"/trailers-differ", "snapshot trailers %q, message trailers %q", got, want)
+		v.Addf(clause+shape+"/trailers-differ", "snapshot trailers %q, message trailers %q", got, want)
 	}
 	return v
 }
@@ -718,7 +840,7 @@ func maxBody() int {
 
 func gen(t *rapid.T) Case {
 	c := Case{Logger: rapid.SampledFrom([]string{"har", "marbl", "text", "snapshot", "stack"}).Draw(t, "logger")}
-	o := msggen.Options{MaxBody: maxBody(), Corrupt: true, Unannounced: true}
+	o := msggen.Options{MaxBody: maxBody(), Corrupt: true, Unannounced: true, BadForms: true}
 	if rapid.Bool().Draw(t, "response") {
 		c.Msg = msggen.DrawResponse(t, o, rapid.SampledFrom([]string{"GET", "GET", "POST", "HEAD"}).Draw(t, "req_method"))
 	} else {
@@ -727,6 +849,9 @@ func gen(t *rapid.T) Case {
 		if c.Msg.Framing == "cl" && c.Msg.Body.Kind != "none" {
 			c.Unknown = rapid.IntRange(0, 7).Draw(t, "unknown_length") == 0
 		}
+	}
+	if c.Msg.Framing == "cl" && c.Msg.Body.Kind != "none" && !c.Unknown && rapid.IntRange(0, 5).Draw(t, "built") == 0 {
+		c.Built = rapid.SampledFrom([]string{"cl0", "cl-1"}).Draw(t, "built_length")
 	}
 	c.Post, c.Body = drawHarOpt(t, "post"), drawHarOpt(t, "body")
 	c.HeadersOnly = rapid.IntRange(0, 3).Draw(t, "headers_only") == 0
@@ -806,6 +931,12 @@ func classes(c Case) []string {
 	if s.TrailersUnannounced {
 		cl = append(cl, "unannounced-trailers")
 	}
+	if c.Built != "" {
+		cl = append(cl, "built-"+c.Built)
+	}
+	if s.Body.Kind == "badform" && (c.Logger == "har" || c.Logger == "stack") && c.Post.Mode == "all" {
+		cl = append(cl, "unparseable-form-captured-by-har")
+	}
 	if c.Unknown {
 		cl = append(cl, "unknown-length")
 	}
@@ -846,12 +977,12 @@ var propForward = &kit.Prop[Case]{
 	Gates: map[string]float64{
 		"nontrivial": 0.5, "framing-chunked": 0.15, "trailers": 0.04, "encoded": 0.2, "skip-logging": 0.1,
 		"logger-har": 0.1, "logger-marbl": 0.1, "logger-text": 0.1, "logger-snapshot": 0.1, "logger-stack": 0.1,
-		"request": 0.3, "response": 0.3, "body>=4097": 0.15, "bodyless-post": 0.01, "skip-logging-between-request-and-response": 0.05, "mark-after-skip-logging": 0.03, "unannounced-trailers": 0.01,
+		"request": 0.3, "response": 0.3, "body>=4097": 0.15, "bodyless-post": 0.01, "skip-logging-between-request-and-response": 0.05, "mark-after-skip-logging": 0.03, "unannounced-trailers": 0.01, "built-cl0": 0.01, "built-cl-1": 0.01, "unparseable-form-captured-by-har": 0.003,
 	},
 }
 
 var propMatrix = &kit.Prop[Case]{
-	ID: "C15", Name: "matrix", Rule: "ALL combinations of logger x {request, response} x framing (none, Content-Length, chunked, chunked+trailers, close, answer to HEAD, 204) x body size {0, 1, 4097} x {identity, gzip} x skip-logging {off, before the exchange, between request and response phase (responses)} x method {GET, POST}; plus the skip-logging mark among other context marks (SkipRoundTrip, APIRequest, the real api.Forwarder) in 5 orders x 4 loggers x {request, response, response marked between the phases}, and unannounced trailers x 5 loggers x {request, response}: " + rule,
+	ID: "C15", Name: "matrix", Rule: "ALL combinations of logger x {request, response} x framing (none, Content-Length, chunked, chunked+trailers, close, answer to HEAD, 204) x body size {0, 1, 4097} x {identity, gzip} x skip-logging {off, before the exchange, between request and response phase (responses)} x method {GET, POST}; plus the skip-logging mark among other context marks (SkipRoundTrip, APIRequest, the real api.Forwarder) in 5 orders x 4 loggers x {request, response, response marked between the phases}, unannounced trailers x 5 loggers x {request, response}, messages built by a program with ContentLength 0 / -1 x 5 loggers x {request, response}, and 5 kinds of unparseable form bodies x Content-Length/chunked x {har, stack}: " + rule,
 	Run: run, NonTrivial: nontrivial, Classes: classes,
 }
 
@@ -943,6 +1074,32 @@ func matrixExtra(yield func(Case) bool) {
 					c.Msg, c.SkipBetween = resSpec, true
 				}
 				if !yield(c) {
+					return
+				}
+			}
+		}
+	}
+	// messages built by a program (length field says nothing about the body)
+	for _, logger := range []string{"har", "marbl", "text", "snapshot", "stack"} {
+		for _, built := range []string{"cl0", "cl-1"} {
+			for _, spec := range []msggen.Spec{reqSpec, resSpec} {
+				if !yield(Case{Logger: logger, Post: all, Body: all, Order: []int{0, 1, 2}, Msg: spec, Built: built}) {
+					return
+				}
+			}
+		}
+	}
+	// request bodies labelled as forms that no form parser accepts, captured by HAR
+	for _, logger := range []string{"har", "stack"} {
+		for _, bad := range []string{"escape", "semicolon", "multipart-unclosed", "multipart-noboundary", "multipart-truncated"} {
+			for _, framing := range []string{"cl", "chunked"} {
+				ct := "application/x-www-form-urlencoded"
+				if strings.HasPrefix(bad, "multipart") {
+					ct = "multipart/form-data"
+				}
+				spec := msggen.Spec{Method: "POST", Host: "example.com", Path: "/a", Framing: framing, ContentType: ct,
+					Body: msggen.Body{Kind: "badform", Bad: bad, Size: 20, Seed: 3, Boundary: "b0undary-0123456789-abcdefghij"}}
+				if !yield(Case{Logger: logger, Post: all, Body: all, Order: []int{0, 1, 2}, Msg: spec}) {
 					return
 				}
 			}
